@@ -48,14 +48,15 @@ def ident_of(name, kind):
 @st.composite
 def cases(draw, switches):
     nv = draw(st.integers(2, 7))
-    names_ = draw(st.lists(st.sampled_from(NAMES), min_size=nv, max_size=nv, unique=True))
+    # (name, kind) pairs are unique, names are not: AA, AA$, AA() and AA$() are four different variables
+    pairs = draw(st.lists(st.tuples(st.sampled_from(NAMES[:8] if draw(st.booleans()) else NAMES), st.sampled_from(["num", "str", "arr", "sarr", "arr", "sarr"])),
+                          min_size=nv, max_size=nv, unique=True))
     vars_ = []
     lines = []
     dims_line = []
     body = []
     data = []
-    for nm in names_:
-        kind = draw(st.sampled_from(["num", "str", "arr", "sarr", "arr", "sarr"]))
+    for nm, kind in pairs:
         pos = draw(st.sampled_from(POSITIONS))
         v = {"name": nm, "kind": kind, "pos": pos, "dims": None, "dimmed": False}
         isarr = kind in ("arr", "sarr")
